@@ -288,6 +288,73 @@ func c13Run(c c13Case, res *WRes) {
 	}
 }
 
+// c13JWKSURI: two clients whose jwks_uri differ only in the query string (a multi-tenant JWKS endpoint). After an
+// ordinary request of tenant A, a request object for tenant B signed with A's key must still be refused.
+func c13JWKSURI(variant string, res *WRes) {
+	w := NewWorld(Profile{})
+	docs := map[string]string{}
+	mk := func(id, uri, key string) {
+		base := w.AddClient(id, "secret-"+id, false)
+		base.RedirectURIs = []string{"https://v.example/cb"}
+		w.Mem.Clients[id] = &fosite.DefaultOpenIDConnectClient{DefaultClient: base, JSONWebKeysURI: uri, RequestObjectSigningAlgorithm: "RS256"}
+		b, _ := json.Marshal(jwks(pubJWK(rsaKey(key), "rk", "RS256")))
+		docs[uri] = string(b)
+	}
+	uriA, uriB := "https://jwks.example/keys?tenant=a", "https://jwks.example/keys?tenant=b"
+	switch variant {
+	case "path":
+		uriA, uriB = "https://jwks.example/a/keys", "https://jwks.example/b/keys"
+	case "fragment":
+		uriA, uriB = "https://jwks.example/keys#a", "https://jwks.example/keys2#a"
+	case "host-case":
+		uriA, uriB = "https://jwks.example/keys", "https://JWKS.example/keys2"
+	}
+	mk("VA", uriA, "rsa1")
+	mk("VB", uriB, "rsa2")
+	hc := retryablehttp.NewClient()
+	hc.RetryMax = 0
+	hc.Logger = nil
+	hc.HTTPClient.Transport = memRT{docs: docs}
+	fs := fosite.NewDefaultJWKSFetcherStrategy(fosite.JWKSFetcherWithHTTPClient(hc))
+	w.Cfg.JWKSFetcherStrategy = fs
+	ro := func(client, key string) *Obs {
+		claims := map[string]any{"iss": client, "aud": IssuerURL, "scope": "openid photos", "state": "ro-state-0123456789", "client_id": client, "response_type": "code", "redirect_uri": "https://v.example/cb"}
+		p := url.Values{"client_id": {client}, "response_type": {"code"}, "scope": {"openid a"}, "state": {strOfLen(20)}, "nonce": {strOfLen(20)}, "redirect_uri": {"https://v.example/cb"},
+			"request": {signJWT(rsaKey(key), "RS256", "rk", claims, nil)}}
+		return w.Authorize(p, AuthzOpts{})
+	}
+	honoured := func(o *Obs) bool {
+		return o.Param("code") != "" && (o.Param("state") == "ro-state-0123456789" || strings.Contains(o.Param("scope"), "photos"))
+	}
+	warm := ro("VA", "rsa1")
+	if w, ok := fs.(interface{ WaitForCache() }); ok {
+		w.WaitForCache()
+	}
+	res.Trans++
+	if !honoured(warm) {
+		res.note("sanity:jwks-uri-request-object-refused:" + warm.Class())
+		return
+	}
+	res.note("request-object-honoured")
+	for _, seq := range []string{"B-with-A-key", "B-with-A-key-again", "A-with-B-key"} {
+		var o *Obs
+		if seq == "A-with-B-key" {
+			o = ro("VA", "rsa2")
+		} else {
+			o = ro("VB", "rsa1")
+		}
+		res.Trans++
+		res.Evals++
+		res.distinct("jwks-uri|" + variant + "|" + seq)
+		if honoured(o) {
+			res.violate(Violation{Property: "C13", Fingerprint: "C13/request-object-honoured/signed-with-another-clients-jwks_uri-key/" + variant, What: fmt.Sprintf("after an ordinary request of client VA, a request object (%s) signed with the other client's key was honoured; jwks_uri %q vs %q", seq, uriA, uriB), Engine: "c13jwks", Case: map[string]string{"variant": variant}, Expected: "invalid_request_object", Observed: o.Location})
+		}
+	}
+	if ok := ro("VB", "rsa2"); honoured(ok) {
+		res.note("jwks-uri-own-key-honoured")
+	}
+}
+
 type c13Job struct {
 	Group string
 	Shard int
@@ -379,7 +446,7 @@ func c13Cases(group string) []c13Case {
 	return cs
 }
 
-var c13Groups = []string{"G1-response-types", "G2-response-modes", "G3-state-nonce", "G4-redirect-uri", "G5-request-objects"}
+var c13Groups = []string{"G1-response-types", "G2-response-modes", "G3-state-nonce", "G4-redirect-uri", "G5-request-objects", "G6-jwks-uri"}
 
 func init() {
 	registerWorker("c13", func(arg json.RawMessage) (any, error) {
@@ -388,6 +455,15 @@ func init() {
 			return nil, err
 		}
 		res := &WRes{}
+		if j.Group == "G6-jwks-uri" {
+			if j.Shard == 0 {
+				for _, v := range []string{"query", "path", "fragment", "host-case"} {
+					c13JWKSURI(v, res)
+				}
+				res.sample("two clients with look-alike jwks_uri values; warm-up request of A, then request objects for B signed with A's key")
+			}
+			return res, nil
+		}
 		for i, c := range c13Cases(j.Group) {
 			if i%16 != j.Shard {
 				continue
@@ -401,6 +477,15 @@ func init() {
 		}
 		return res, nil
 	})
+	replayFns["c13jwks"] = func(raw json.RawMessage) ([]Violation, error) {
+		var c struct{ Variant string }
+		if err := json.Unmarshal(raw, &c); err != nil {
+			return nil, err
+		}
+		res := &WRes{}
+		c13JWKSURI(c.Variant, res)
+		return res.Viol, nil
+	}
 	replayFns["c13"] = func(raw json.RawMessage) ([]Violation, error) {
 		var c c13Case
 		if err := json.Unmarshal(raw, &c); err != nil {
@@ -421,7 +506,7 @@ func init() {
 		}
 		r.Bounds = map[string]any{"groups": sizes, "G1": "8 registered response-type sets x 4 grant sets x public x all ordered response_type lists of <=3 tokens over {code,token,id_token,bogus} (incl. duplicates, empty) x scope{a, openid a}",
 			"G2": "6 response-mode registrations x 5 requested modes x 7 response types x openid", "G3": "MinParameterEntropy{8,12} x 7 state values x 7 nonce values x 7 response types x openid",
-			"G4": "1|2 registered URIs x redirect_uri present/absent x 3 scopes x 7 response types x 4 grant sets", "G5": "14 request-object variants x 6 registered algorithms x 3 response types x openid"}
+			"G4": "1|2 registered URIs x redirect_uri present/absent x 3 scopes x 7 response types x 4 grant sets", "G5": "14 request-object variants x 6 registered algorithms x 3 response types x openid", "G6": "request objects verified through jwks_uri (in-memory transport, real DefaultJWKSFetcherStrategy and cache): 4 look-alike URI pairs x 3 cross-client presentations after a warm-up"}
 		r.Rule = "each group is a full product, every case is sent to the real authorization endpoint of a fresh provider; an accepted request must satisfy every listed condition (one-sided), tokens never appear in the query, state is echoed on every redirect, issued codes are carried to the token endpoint; cross terms between groups are not covered; distinct = distinct accepted cases"
 		r.Assumptions = []string{"hybrid code+id_token without the implicit grant (ID token only) and unsigned request objects for a client with no registered algorithm are don't-care", "request_uri documents are served by an in-memory HTTP transport"}
 		res := r.Pool.Do("c13", jobs, r.Deadline)
